@@ -6,7 +6,7 @@
 From Coq Require Import QArith List Bool Arith Permutation.
 From LV Require Import Cluster.Nwk Cluster.NwkProofs Cluster.Upgma Cluster.UpgmaProofs
   Cluster.UpgmaRecover Cluster.UpgmaClades Cluster.UpgmaPaths Cluster.Neighbor Cluster.NeighborProofs Cluster.NeighborRecover
-  Cluster.TreeBuildExec Cluster.TreeBuildProofs.
+  Cluster.TreeBuildExec Cluster.TreeBuildProofs Cluster.NjTree Cluster.NjCherry Cluster.NjRun Cluster.NjSplits Cluster.NjTopo.
 Import ListNotations.
 Local Open Scope nat_scope.
 
@@ -165,9 +165,10 @@ Print Assumptions C09_nj_pathsums_of_cherries.
    PROVED PART: the statement below, which has the cherry-picking lemma of
    Saitou-Nei / Studier-Keppler (on a tree metric with positive branch lengths
    every pair the Q-criterion selects along the run is a cherry) as an explicit
-   premise, and concludes leaves + path sums.  MISSING: (1) the cherry-picking
-   lemma itself; (2) that equal path metrics with positive lengths force equal
-   splits (uniqueness of the tree representation).  Both clauses are checked on
+   premise, and concludes leaves + path sums.  The premise (1) is meanwhile proved
+   (C09_nj_cherry_picking below, giving C09_nj_recovers_pathsums without premise),
+   and the topology clause is proved as well: the full statement is C09_nj_recovers
+   below.  This theorem is kept for the record; nothing is missing any more.  Both clauses are checked on
    the implementation's outputs for generated additive matrices (checker bits 4
    and 5), and the premise is checked by computation on the instance below. *)
 Theorem C09_nj_recovers_partial :
@@ -177,6 +178,85 @@ Theorem C09_nj_recovers_partial :
       forall e, In e (pairdists t) -> (snd e == dm m (fst (fst e)) (snd (fst e)))%Q.
 Proof. exact nj_recovers_given_cherry_picking. Qed.
 Print Assumptions C09_nj_recovers_partial.
+
+(* (d) The cherry-picking lemma of Saitou-Nei / Studier-Keppler, PROVED
+   (Cluster/NjTree.v, NjCherry.v, NjRun.v): on the path metric of a binary tree with
+   positive branch lengths (tree_metric) a pair minimising the Q-criterion is a cherry
+   of the tree.  Proof: (N-2) Q(a,b) = -(2 d(a,b) + sum_k (d(a,k)+d(b,k)-d(a,b)))
+   (Q_as_Tsum), so a minimiser of Q maximises Tsum; re-root the tree at a
+   (reroot_leaf); if b is not a's neighbour there is a clade hanging off the path
+   from a to b holding fewer than half of the other leaves, and a cherry inside it
+   (cherry_beats), or the single leaf it consists of (leaf_beats), has a larger
+   Tsum.  One step: *)
+Theorem C09_nj_min_pair_is_cherry :
+  forall (m : mat) (a b : nat) (q : Q), tree_metric m -> 3 <= length m ->
+    first_min (nj_scores m (length m)) = Some ((a, b), q) -> metric_cherry m (length m) a b.
+Proof. exact nj_min_pair_is_cherry. Qed.
+Print Assumptions C09_nj_min_pair_is_cherry.
+
+(* the same for any pair maximising Tsum, on trees: the tree can be re-rooted so
+   that a hangs off the root and b is a child of a's neighbour *)
+Theorem C09_nj_cherry_lemma_tree :
+  forall (T : tree) (d : nat -> nat -> Q) (n a b : nat),
+    NoDup (leaves T) -> positive T -> metric_of d T -> Permutation (leaves T) (seq 0 n) ->
+    3 <= n -> a < n -> b < n -> a <> b -> tmax d n a b ->
+    exists x y eb Z ez,
+      teq T (Node (Leaf a) x (Node (Leaf b) eb Z ez) y) /\
+      positive (Node (Leaf a) x (Node (Leaf b) eb Z ez) y).
+Proof. exact max_pair_is_cherry. Qed.
+Print Assumptions C09_nj_cherry_lemma_tree.
+
+(* the run: the reduced matrix is the metric of the tree with the cherry collapsed
+   (reduce_tm), so every pair selected along the run is a cherry: the premise of
+   C09_nj_recovers_partial holds *)
+Theorem C09_nj_cherry_picking :
+  forall (m : mat), tree_metric m -> picks_cherries (length m) (nj_init m).
+Proof. exact nj_cherry_picking. Qed.
+Print Assumptions C09_nj_cherry_picking.
+
+(* hence, unconditionally: on an additive metric with positive branch lengths
+   Neighbor-Joining returns a tree over the given taxa whose path sums reproduce
+   the input distances.  (The topology clause is C09_nj_recovers below.) *)
+Theorem C09_nj_recovers_pathsums :
+  forall (m : mat), tree_metric m ->
+    exists t, nj_tree m = Some t /\ Permutation (leaves t) (seq 0 (length m)) /\
+      forall e, In e (pairdists t) -> (snd e == dm m (fst (fst e)) (snd (fst e)))%Q.
+Proof. exact nj_recovers_pathsums. Qed.
+Print Assumptions C09_nj_recovers_pathsums.
+
+(* (e) The full clause, PROVED: if m is the leaf-to-leaf path metric of a binary tree T
+   with positive branch lengths over the taxa 0..n-1 (tree_metric_of), Neighbor-Joining
+   returns a tree over exactly these taxa with the splits (unrooted topology) of T
+   and with branch lengths whose path sums reproduce the input distances.
+   Topology: the subtrees built so far, grafted onto the leaves of the current
+   collapsed tree, always form a tree related to T by root moves and child swaps
+   (tiso, NjTopo.tpP_step); tiso preserves the split family (NjSplits.tiso_spl);
+   splits_eqb is the verified checker that also runs on the implementation's Newick. *)
+Theorem C09_nj_recovers :
+  forall (m : mat) (T : tree), tree_metric_of m T ->
+    exists t, nj_tree m = Some t /\ Permutation (leaves t) (seq 0 (length m)) /\
+      (forall e, In e (pairdists t) -> (snd e == dm m (fst (fst e)) (snd (fst e)))%Q) /\
+      splits_eqb (nt_of_tree T) (nt_of_tree t) = true.
+Proof. exact nj_recovers. Qed.
+Print Assumptions C09_nj_recovers.
+
+Theorem C09_nj_recovers_topology :
+  forall (m : mat) (T : tree), tm m T -> 2 <= length m ->
+    exists t, nj_tree m = Some t /\ tiso t T.
+Proof. exact nj_recovers_topology. Qed.
+Print Assumptions C09_nj_recovers_topology.
+
+(* same unrooted topology implies the same splits *)
+Theorem C09_tiso_same_splits :
+  forall t t', tiso t t' -> NoDup (leaves t) -> spl_eq (leaves t) t t'.
+Proof. exact tiso_spl. Qed.
+Print Assumptions C09_tiso_same_splits.
+
+Example C09_nj_recovers_nonvacuous :
+  let T := Node (Node (Leaf 0) 1 (Leaf 1) 2) 1 (Node (Leaf 2) 1 (Node (Leaf 3) 2 (Leaf 4) 1) 1) 1 in
+  let m : mat := [[0;3;4;6;5]; [3;0;5;7;6]; [4;5;0;4;3]; [6;7;4;0;3]; [5;6;3;3;0]]%Q in
+  tree_metric_of m T.
+Proof. cbv zeta. apply tree_metric_of_b. vm_compute. reflexivity. Qed.
 
 (* a 5-taxon additive metric: the hypotheses of (b) and of tree_metric hold, the run
    picks cherries, and the returned tree has the generating splits and path sums *)
